@@ -68,6 +68,8 @@ def run(repo, res):
     # the text search itself, interpreted with the visitors' call shape on a corpus of layouts
     from .. import textsearch
     api_model.apply(res, textsearch.model(repo), {'text': 'C11-R3', 'text-count': 'C11-R3'}, SCOPE, 0)
+    # the unit of columns: supp's own Source.tree on texts with non-ASCII characters in front of identifiers
+    api_model.apply(res, api_model.column_unit_model(repo), {'columns': 'C11-R1'}, 'supp/util.py', 0)
     # a search string must be one token: white space (or a line continuation) may separate any two tokens of the grammar
     hyg = R.binding_hygiene_records(repo)
     seen_g = set()
